@@ -1437,6 +1437,21 @@ fn run_lz(c: &Case) -> Obs {
                 format!("{}{} {}", fmt_data(&fs), if err { "!Err" } else { "" }, gets.join(","))
             }),
         ),
+        (
+            "cigar-len",
+            g(|| {
+                let c = rr().cigar();
+                format!("{}:{}", c.len(), c.is_empty() as u8)
+            }),
+        ),
+        (
+            // RecordBuf::try_from_alignment_record of the lazy record (error kinds not observed)
+            "convert",
+            g(|| match RecordBuf::try_from_alignment_record(&sam::Header::default(), &rr()) {
+                Ok(rb) => short_or_digest(from_record_buf(&rb, 0).canon()),
+                Err(_) => "Err".to_string(),
+            }),
+        ),
     ];
     let panicked: Vec<&str> = fields.iter().filter(|(_, v)| v.is_none()).map(|(n, _)| *n).collect();
     let obs = short_or_digest(fields.iter().map(|(_, v)| p(v.clone())).collect::<Vec<_>>().join(" "));
